@@ -28,6 +28,14 @@ GOENV = {
 def goenv():
     e = dict(os.environ)
     e.update(GOENV)
+    # the embedded QBE is #include'd from /repo/qbe, which the Go build cache does not track:
+    # make its content part of the cgo cache key so that a changed qbe/*.c is really rebuilt
+    import hashlib
+    h = hashlib.sha1()
+    for f in sorted(glob.glob(os.path.join(REPO, "qbe", "*.[ch]")) + glob.glob(os.path.join(REPO, "qbe", "*", "*.[ch]"))):
+        with open(f, "rb") as fh:
+            h.update(f.encode() + b"\0" + fh.read())
+    e["CGO_CFLAGS"] = (e.get("CGO_CFLAGS", "-g -O2") + " -DVERIF_QBE_SRC_" + h.hexdigest()[:16]).strip()
     return e
 
 
